@@ -49,10 +49,11 @@ def short(s, n=160):
 class Ctx:
     """Per-shard recorder handed to a check's ``run_shard``."""
 
-    def __init__(self, prop, tier, known):
+    def __init__(self, prop, tier, known, shard=None):
         self.prop = prop
         self.tier = tier
         self.known = known
+        self.shard = shard
         self.evaluations = 0
         self.nontrivial = 0
         self.digest = 0
@@ -63,6 +64,7 @@ class Ctx:
         self.unmatched = {}       # group -> [count, [examples]]
         self.counters = collections.Counter()
         self.keys_seen = 0
+        self.failed_keys = set()
 
     # -- recording -------------------------------------------------------
     def _dump(self, key, got):
@@ -97,6 +99,8 @@ class Ctx:
                 if hit[1] is None:
                     hit[1] = {'key': key, 'sig': sig}
                 return
+        if len(self.failed_keys) < 200000:
+            self.failed_keys.add(key)
         group = (tuple(sorted(t for t in tags
                               if not t.startswith(GROUP_IGNORE))),
                  generalise(sig))
@@ -104,7 +108,8 @@ class Ctx:
         g[0] += 1
         if len(g[1]) < MAX_UNMATCHED_PER_GROUP:
             g[1].append({'key': key, 'tags': list(tags), 'inputs': inputs,
-                         'want': want, 'got': got, 'sig': sig, 'note': note})
+                         'want': want, 'got': got, 'sig': sig, 'note': note,
+                         'shard': self.shard, 'tier': self.tier})
 
     def check(self, key, got, want, tags=(), inputs=None, nontrivial=True,
               note=None):
@@ -168,7 +173,7 @@ def _init_worker(modname, prop, tier):
 
 def _run_shard(args):
     idx, shard = args
-    ctx = Ctx(_W['prop'], _W['tier'], _W['known'])
+    ctx = Ctx(_W['prop'], _W['tier'], _W['known'], shard)
     try:
         _W['mod'].run_shard(shard, ctx)
     except BaseException:  # noqa: BLE001
@@ -267,10 +272,27 @@ def aggregate(mod, prop, tier, seed, shards, results, t0):
                                     XLMC_NO_REVERIFY='1'),
                 stdout=subprocess.DEVNULL, stderr=subprocess.DEVNULL).returncode
             if rc != 1:
-                raise HarnessError(
-                    'case %s failed in the exploration but not when replayed '
-                    'in a fresh interpreter (rc=%s): nondeterministic case; '
-                    'replay=%s' % (ex['key'], rc, path))
+                # The single case passes on its own.  If the whole shard, run
+                # again in a fresh interpreter, fails on the same case, the
+                # outcome depends on what the LIBRARY did earlier in the same
+                # process (a process-wide cache, say): that is a property of
+                # the code under test, and the shard is the counterexample.
+                ex['replay_as'] = 'shard'
+                write_replay(prop, ex, n)
+                rc2 = subprocess.run(
+                    [sys.executable, '-m', 'xlmc.cli', prop, '--replay', path,
+                     '--quiet'],
+                    cwd=VERIF, env=dict(os.environ, PYTHONHASHSEED='1',
+                                        XLMC_NO_REVERIFY='1'),
+                    stdout=subprocess.DEVNULL,
+                    stderr=subprocess.DEVNULL).returncode
+                if rc2 != 1:
+                    raise HarnessError(
+                        'case %s failed in the exploration but neither when '
+                        'replayed alone (rc=%s) nor when its shard was run '
+                        'again in a fresh interpreter (rc=%s): '
+                        'nondeterministic case; replay=%s'
+                        % (ex['key'], rc, rc2, path))
     for path, ex, n in violation_files:
         lines.append('VIOLATION property=%s replay=%s  # %d case(s) like: %s %s'
                      % (prop, path, n, short(ex['key'], 140),
@@ -347,7 +369,25 @@ def replay(modname, prop, path, quiet=False):
     init = getattr(mod, 'init_worker', None)
     if init:
         init('quick')
-    ctx = Ctx(prop, 'quick', [])      # known findings do not mask a replay
+    ctx = Ctx(prop, doc.get('tier') or 'quick', [])
+    # (known findings do not mask a replay)
+    if doc.get('replay_as') == 'shard':
+        # history-dependent failure: the counterexample is the shard, the
+        # verdict is whether the recorded case fails in it again
+        mod.run_shard(doc['shard'], ctx)
+        again = [ex for v in ctx.unmatched.values() for ex in v[1]
+                 if ex['key'] == doc['key']]
+        hit = any(k == doc['key'] for v in ctx.unmatched.values()
+                  for k in [e['key'] for e in v[1]]) or bool(again)
+        if not hit:
+            # the example list per group is capped: look at all failures
+            hit = doc['key'] in getattr(ctx, 'failed_keys', ())
+        if not quiet:
+            print('shard replay evaluations=%d target-failed=%s'
+                  % (ctx.evaluations, hit))
+        if hit and not quiet:
+            print('VIOLATION property=%s replay=%s' % (prop, path))
+        return 1 if hit else 0
     mod.replay(doc['inputs'], ctx)
     bad = sum(v[0] for v in ctx.unmatched.values())
     if not quiet:
